@@ -6,6 +6,7 @@ from tornado import escape as _escape_preload   # imported before any worker for
 ID = "C22"
 LEAN_TARGETS = ["TornadoModel.C22.Props"]
 THEOREMS = ["TornadoModel.C22." + n for n in [
+    "strip_anchors_identity", "strip_anchors_labels", "shorten_label_prefix", "label_eq_url", "href_safe", "linkParts_some",
 ]]
 TRUSTED = [
     "CPython's regex engine on _URL_RE: the match list (span, group 2, group 3) is data taken from "
